@@ -121,7 +121,7 @@ def scalar(x: str, ctx: int, style_i: int, flow_i: int, allow_unicode: bool, wid
     return 'ok'
 
 
-FOLD = 'a \n'
+FOLD = 'a \n\xe9'      # \xe9 is written as an escape under allow_unicode=False: folds right after an escape
 
 
 def fold(k0: int, k1: int, k2: int, k3: int, k4: int, k5: int, n: int, style_i: int, width: int, depth: int, indent: int) -> str:
@@ -162,18 +162,27 @@ def graph(ns: int, k0: int, k1: int, k2: int, a0: int, a1: int, a2: int, b0: int
     for i in range(3):
         objs.append([] if kinds[i] == 0 else {})
 
+    OMIT = object()
+
     def ptr(p):
         for i in range(ns):
             if p == i:
                 return objs[i]
-        return 'leaf'
+        if p == ns:
+            return 'leaf'
+        return OMIT            # no child here: containers may be empty, and an empty one may be shared
     for i in range(ns):
+        a, b = ptr(A[i]), ptr(B[i])
         if kinds[i] == 0:
-            objs[i].append(ptr(A[i]))
-            objs[i].append(ptr(B[i]))
+            if a is not OMIT:
+                objs[i].append(a)
+            if b is not OMIT:
+                objs[i].append(b)
         else:
-            objs[i]['x'] = ptr(A[i])
-            objs[i]['y'] = ptr(B[i])
+            if a is not OMIT:
+                objs[i]['x'] = a
+            if b is not OMIT:
+                objs[i]['y'] = b
     root = objs[0]
     try:
         text = emitlib.dump_to_text(root, default_flow_style=pick(flow_i, FLOWS))
@@ -345,19 +354,24 @@ def jobs(tier):
                                   budget=300, exhaust=False,
                                   bounds='str of len 2 over all code points starting in U+%04X..U+%04X, context %d, style %r' % (lo, hi - 1, ctx, STYLES[st])))
     # (5) folding and indentation depth
-    FN = 4 if q else 6
+    # (the emitter honours a requested width only when it exceeds twice the indent: 5 is the smallest effective one)
+    FN = 5 if q else 6
     for st in range(5):
-        js.append(Job('fold/style%d' % st, fold,
-                      [lambda k0, k1, k2, k3, k4, k5, n, style_i, width, depth, indent, _s=st:
-                       style_i == _s and 1 <= n <= FN and 0 <= k0 <= 2 and 0 <= k1 <= 2 and 0 <= k2 <= 2 and 0 <= k3 <= 2 and 0 <= k4 <= 2 and
-                       0 <= k5 <= 2 and 1 <= width <= (3 if q else 6) and 0 <= depth <= (1 if q else 3) and (indent == 2 if q else 1 <= indent <= 4)],
-                      budget=200 if q else 1800, exhaust=q,
-                      bounds='text of len<=%d over {a, space, LF}, style %r, width 1..%d, nesting depth 0..%d' % (FN, STYLES[st], 3 if q else 6, 1 if q else 3)))
+        for k in range(4):
+            js.append(Job('fold/style%d/first=%r' % (st, FOLD[k]), fold,
+                          [lambda k0, k1, k2, k3, k4, k5, n, style_i, width, depth, indent, _s=st, _k=k:
+                           style_i == _s and k0 == _k and n == FN and 0 <= k1 <= 3 and 0 <= k2 <= 3 and 0 <= k3 <= 3 and 0 <= k4 <= 3 and
+                           0 <= k5 <= (3 if FN == 6 else 0) and (width == 5 if q else 5 <= width <= 7) and (depth == 0 if q else 0 <= depth <= 3) and
+                           (indent == 2 if q else 1 <= indent <= 3)],
+                          budget=200 if q else 1800, exhaust=q,
+                          bounds='text of len %d over {a, space, LF, e-acute} starting with %r, style %r, width %s, nesting depth %s' % (
+                              FN, FOLD[k], STYLES[st], '5' if q else '5..7', '0' if q else '0..3')))
     # (6) containers: sharing and recursion
     NS = 2 if q else 3
     js.append(Job('graph', graph, [lambda ns, k0, k1, k2, a0, a1, a2, b0, b1, b2, flow_i: ns == NS and 0 <= k0 <= 1 and 0 <= k1 <= 1 and 0 <= k2 <= 1 and
-                                   0 <= a0 <= NS and 0 <= a1 <= NS and 0 <= a2 <= NS and 0 <= b0 <= NS and 0 <= b1 <= NS and 0 <= b2 <= NS and 0 <= flow_i <= 2],
-                  budget=200 if q else 1800, bounds='list/dict graphs over %d slots with arbitrary child pointers, 3 flow styles' % NS))
+                                   0 <= a0 <= NS + 1 and 0 <= a1 <= NS + 1 and 0 <= a2 <= NS + 1 and 0 <= b0 <= NS + 1 and 0 <= b1 <= NS + 1 and 0 <= b2 <= NS + 1 and
+                                   (flow_i == 0 if q else 0 <= flow_i <= 2)],
+                  budget=200 if q else 1800, bounds='list/dict graphs over %d slots with arbitrary child pointers (child = any slot, a leaf, or absent: empty and shared-empty containers included)' % NS))
     # (7) bytes, ints, constants, UTC offsets
     BL = 1 if q else 2
     js.append(Job('binary', binary, [lambda b, ctx, flow_i: len(b) <= BL and 0 <= ctx <= 2 and flow_i == 0], budget=200 if q else 1500,
